@@ -90,15 +90,25 @@ func makeCert(dir string) (*tlsFiles, error) {
 // ---------------------------------------------------------------------------
 // Scripted fake target
 
+// step is one element of a target's script: a message, or the end of a session
+// (the stream is closed with an error; the next Subscribe continues the script).
+type step struct {
+	resp   *gpb.SubscribeResponse
+	brk    bool
+	phase2 bool // after the clients' subscription point
+	delay  time.Duration
+}
+
 type fakeTarget struct {
 	gpb.UnimplementedGNMIServer
 	name   string
-	phase1 []*gpb.SubscribeResponse
-	phase2 []*gpb.SubscribeResponse
+	script []step
+	pace   time.Duration // between phase-2 messages
 	go2    chan struct{} // closed when the clients have subscribed
 	stop   chan struct{}
 
 	mu        sync.Mutex
+	pos       int
 	subs      int
 	req       *gpb.SubscribeRequest
 	sent1     chan struct{} // closed when phase 1 was handed to gRPC
@@ -117,39 +127,52 @@ func (f *fakeTarget) Subscribe(stream gpb.GNMI_SubscribeServer) error {
 	}
 	f.mu.Lock()
 	f.subs++
-	first := f.subs == 1
-	if first {
+	if f.subs == 1 {
 		f.req = req
 	}
 	f.mu.Unlock()
-	if first {
-		send := func(l []*gpb.SubscribeResponse, pace time.Duration) bool {
-			for _, r := range l {
-				if pace > 0 {
-					// let the collector's sender drain its queue between messages, so
-					// that what a subscriber sees does not depend on coalescing
-					time.Sleep(pace)
-				}
-				if err := stream.Send(r); err != nil {
-					f.mu.Lock()
-					f.sendError = err.Error()
-					f.mu.Unlock()
-					return false
-				}
-			}
-			return true
+	for {
+		f.mu.Lock()
+		pos := f.pos
+		f.mu.Unlock()
+		if pos >= len(f.script) {
+			f.once1.Do(func() { close(f.sent1) })
+			f.onceAll.Do(func() { close(f.sentAll) })
+			break
 		}
-		ok := send(f.phase1, 0)
-		f.once1.Do(func() { close(f.sent1) })
-		if ok {
+		st := f.script[pos]
+		if st.phase2 {
+			f.once1.Do(func() { close(f.sent1) })
 			select {
 			case <-f.go2:
-				send(f.phase2, 2*time.Millisecond)
 			case <-f.stop:
+				return nil
 			case <-stream.Context().Done():
+				return nil
+			}
+			if f.pace > 0 && !st.brk {
+				// let the collector's sender drain its queue between messages, so
+				// that what a subscriber sees does not depend on coalescing
+				time.Sleep(f.pace)
 			}
 		}
-		f.onceAll.Do(func() { close(f.sentAll) })
+		if st.delay > 0 {
+			time.Sleep(st.delay)
+		}
+		f.mu.Lock()
+		f.pos++
+		f.mu.Unlock()
+		if st.brk {
+			// the session ends: the collector sees a Recv error, resets the target
+			// and, after its back-off, opens the next session
+			return status.Error(codes.Unavailable, "scripted stream failure")
+		}
+		if err := stream.Send(st.resp); err != nil {
+			f.mu.Lock()
+			f.sendError = err.Error()
+			f.mu.Unlock()
+			return err
+		}
 	}
 	// keep the stream open: closing it would make the collector reset the target
 	select {
@@ -159,12 +182,12 @@ func (f *fakeTarget) Subscribe(stream gpb.GNMI_SubscribeServer) error {
 	return nil
 }
 
-func startTarget(name string, tf *tlsFiles, p1, p2 []*gpb.SubscribeResponse) (*fakeTarget, error) {
+func startTarget(name string, tf *tlsFiles, script []step, pace time.Duration) (*fakeTarget, error) {
 	lis, err := net.Listen("tcp", "127.0.0.1:0")
 	if err != nil {
 		return nil, err
 	}
-	f := &fakeTarget{name: name, phase1: p1, phase2: p2, go2: make(chan struct{}), stop: make(chan struct{}),
+	f := &fakeTarget{name: name, script: script, pace: pace, go2: make(chan struct{}), stop: make(chan struct{}),
 		sent1: make(chan struct{}), sentAll: make(chan struct{}), addr: lis.Addr().String()}
 	f.srv = grpc.NewServer(grpc.Creds(credentials.NewTLS(tf.conf)))
 	gpb.RegisterGNMIServer(f.srv, f)
@@ -226,7 +249,14 @@ func strs(p *GPath) []string {
 func expectedCount(ops []Op, target string) int {
 	st := map[string]int64{} // key -> timestamp of the newest accepted update
 	for _, o := range ops {
-		if o.Subscribe || o.T != target || o.N == nil {
+		if o.Subscribe || o.T != target {
+			continue
+		}
+		if o.Break {
+			st = map[string]int64{} // the reset drops everything
+			continue
+		}
+		if o.N == nil {
 			continue
 		}
 		for _, u := range o.N.Updates {
@@ -323,6 +353,10 @@ func startClient(ctx context.Context, addr string, q ClientSpec) *libClient {
 		TLS:     &tls.Config{InsecureSkipVerify: true},
 		SubReq:  subReq(q),
 		NotificationHandler: func(client.Notification) error {
+			if q.Slow > 0 {
+				// a subscriber that reads slowly: the collector's queue for it fills up
+				time.Sleep(time.Duration(q.Slow) * time.Microsecond)
+			}
 			lc.mu.Lock()
 			lc.last = time.Now()
 			lc.count++
@@ -639,8 +673,13 @@ func runScenario(e *env, id int, c *Case) (obs *Obs, herr error) {
 		}
 	}
 	targets := map[string]*fakeTarget{}
+	pace := 2 * time.Millisecond
+	if c.NoPace {
+		pace = 0
+	}
+	breaks := 0
 	for _, nm := range names {
-		var p1, p2 []*gpb.SubscribeResponse
+		var script []step
 		sub := false
 		for _, o := range c.Ops {
 			if o.Subscribe {
@@ -650,19 +689,23 @@ func runScenario(e *env, id int, c *Case) (obs *Obs, herr error) {
 			if o.T != nm {
 				continue
 			}
-			if sub {
-				p2 = append(p2, respOf(o.N))
+			if o.Break {
+				breaks++
+				script = append(script, step{brk: true, phase2: sub})
 			} else {
-				p1 = append(p1, respOf(o.N))
+				script = append(script, step{resp: respOf(o.N), phase2: sub, delay: time.Duration(o.DelayUS) * time.Microsecond})
 			}
 		}
-		ft, err := startTarget(nm, e.tf, p1, p2)
+		ft, err := startTarget(nm, e.tf, script, pace)
 		if err != nil {
 			return nil, err
 		}
 		defer ft.shutdown()
 		targets[nm] = ft
 	}
+	// every scripted stream failure costs one back-off of the target manager
+	// (1 s base, growing, randomised): allow for it when waiting
+	slack := time.Duration(breaks) * 3 * time.Second
 
 	// collector configuration
 	cfg := &tpb.Configuration{Request: map[string]*gpb.SubscribeRequest{}, Target: map[string]*tpb.Target{}}
@@ -815,7 +858,7 @@ func runScenario(e *env, id int, c *Case) (obs *Obs, herr error) {
 		time.Sleep(20 * time.Millisecond)
 	}
 	if contacted() {
-		waitAll(func(f *fakeTarget) chan struct{} { return f.sent1 }, 3*time.Second)
+		waitAll(func(f *fakeTarget) chan struct{} { return f.sent1 }, 3*time.Second+slack)
 	}
 	time.Sleep(150 * time.Millisecond)
 
@@ -841,7 +884,7 @@ func runScenario(e *env, id int, c *Case) (obs *Obs, herr error) {
 		close(targets[nm].go2)
 	}
 	if contacted() {
-		waitAll(func(f *fakeTarget) chan struct{} { return f.sentAll }, 5*time.Second)
+		waitAll(func(f *fakeTarget) chan struct{} { return f.sentAll }, 5*time.Second+slack)
 	}
 	sentAt := time.Now()
 
